@@ -243,6 +243,35 @@ def run_frame_round_trip(mutate=None, prefixes=("C14.", "C05.")):
             st = td.state if isinstance(td.state, dict) else {}
             for key in ("step", "time", "dt"):
                 check(f"C05.frame.state_read_back_is_the_label_written_for_that_frame[{key}]", z3.BoolVal(False) if key not in st else sym.eq(st[key], state[key]))
+        # history: ONE Solution object moved from frame to frame (Solution.load_tdgl_data, the code behind `solution.solve_step = k`): after every move its
+        # raw data are those recorded for the frame it is at now - also the applied potential / epsilon when they are written with every frame
+        SOL_ = "tdgl.solution.solution"
+        muts = [(o, n) for (m, o, n) in (mutate or []) if m == SOL_]
+        LS = instrument.load(SOL_, rebind=rb, mutate=muts, vc=vcm.VC())
+        import numpy as _np
+        LS.ns["TDGLData"] = TD
+        LS.ns["get_data_range"] = lambda f: (0, len(frames) - 1)
+        LS.ns["DynamicsData"] = type("Dyn", (), {"from_hdf5": staticmethod(lambda f, a, b: "DYNAMICS")})
+        LS.ns["get_edge_quantity_data"] = lambda q, mesh: (SymArray.fresh("norm", (Ne,)), SymArray.fresh("direction", (Ne, 2)), None)
+        from checks import solution_common as _sc
+
+        class K0:
+            def to(self, u):
+                return 1.0
+        dev = type("Dev", (), {"mesh": "MESH", "K0": K0(), "length_units": "um"})()
+        sol = _sc.new_solution(LS["Solution"], dev, "mT", "uA")
+        for f in (0, 2, 1, 2):
+            sol.load_tdgl_data(f, h5file=dh.output_file)
+            state, data = frames[f]
+            want = dict(fixed)
+            want.update(data)
+            td = sol.tdgl_data
+            for key, arr in want.items():
+                got = getattr(td, key, None)
+                ok = isinstance(got, SymArray) and got.ndim == arr.ndim
+                idx = (i, k) if arr.ndim == 2 else (i,)
+                check(f"C14.solution_moved_between_frames.raw_data_are_those_of_the_frame_it_is_at[{key}]",
+                      z3.BoolVal(False) if not ok else z3.And(*[sym.eq(a, b) for a, b in zip(got.shape, arr.shape)], sym.eq(got.at(*idx), arr.at(*idx))), extra=[i.e < arr.shape[0].e])
     obls, n = explore(body)
     return dict(obls=obls, paths=n, sources=[load_runner(fsmodel.FS(), mutate).info()], consistent=sym.consistent())
 
